@@ -36,6 +36,7 @@ type Run struct {
 	distinct    map[[16]byte]struct{}
 	samples     []any
 	sigSamples  []string
+	sigCalls    int64 // number of judged observations handed to Distinct (finer than Eval when a case has many checkpoints)
 	maxSamples  int
 	counters    map[string]int64
 	sets        map[string]map[string]struct{}
@@ -129,6 +130,7 @@ func (r *Run) Distinct(sig string) {
 	var k [16]byte
 	copy(k[:], h[:16])
 	r.mu.Lock()
+	r.sigCalls++
 	if _, seen := r.distinct[k]; !seen && len(r.sigSamples) < 5 {
 		r.sigSamples = append(r.sigSamples, sig) // first distinct case signatures, written out if the monitor gives no richer samples
 	}
@@ -316,6 +318,14 @@ func (r *Run) Finish() {
 	}
 	if r.samples == nil {
 		r.samples = []any{}
+	}
+	// Some monitors count whole cases (histories) with Eval and hand one signature per judged
+	// checkpoint of a case to Distinct.  The evidence reports both numbers at the granularity
+	// of the signatures, so that distinct_nontrivial is a subset count of evaluations.
+	if r.sigCalls > r.evals {
+		r.counters["cases_run"] = r.evals
+		r.evals = r.sigCalls
+		r.rule += " [evaluations = judged checkpoints (one signature each); cases_run = whole cases/histories]"
 	}
 	cov := map[string]any{
 		"evaluations":         r.evals,
